@@ -332,6 +332,10 @@ def gen_request(rng, world: base.World, verified: bool) -> Tuple[bytes, Dict[str
     method, target, body, headers, version = m.encode(), p.encode(), b"", [], b"1.1"
     if kind in ("valid", "header", "framing", "version"):
         tb = base.valid_bodies(world, m, p)
+        if p == "/pairings":
+            # remove the *other* controller: tearing down the session of a removed controller is C16's
+            # subject (a repair there adds a close step that this pump model does not contain)
+            tb = tb[:2] + [(p.encode(), httpc.pairings_remove(base.CANARY_USER_ID))]
         target, body = rng.choice(tb)
         # what may legitimately change the accessory / pairing / srp state
         meta["effectful"] = (verified and m in ("PUT", "POST")) or p in ("/pair-setup", "/pair-verify")
@@ -462,10 +466,11 @@ def run_stream(world: base.World, chunks: List[bytes], verified: bool, with_uuid
     conn = world.connect()
     if verified:
         conn.p.handler.is_encrypted = True
-        if with_uuid:
+        if with_uuid:  # True / "admin": the paired admin; "user": the paired non-admin controller
             import uuid
 
-            conn.p.handler.client_uuid = uuid.UUID(base.CANARY_CTRL_ID.decode())
+            ident = base.CANARY_USER_ID if with_uuid == "user" else base.CANARY_CTRL_ID
+            conn.p.handler.client_uuid = uuid.UUID(ident.decode())
     calls, disp, cbs = instrument(conn, world) if record else ([], [], [])
     digest0 = world.digest()
     escaped: List[Tuple[str, str]] = []
@@ -657,7 +662,7 @@ def model_line(obs: Dict[str, Any], verified: bool, with_uuid: bool) -> Dict[str
                 c[k] = cb[k]
         cbs.append(c)
     disp = [{"urlparse": d["urlparse"], "handler": d["handler"], "is_admin": d["is_admin"]} for d in t["disp"]]
-    return {"layer": "pump", "op": "transcript", "verified": verified, "has_uuid": with_uuid and verified,
+    return {"layer": "pump", "op": "transcript", "verified": verified, "has_uuid": bool(with_uuid) and verified,
             "h11": t["h11"], "disp": disp, "callbacks": cbs}
 
 
@@ -721,7 +726,7 @@ def cases(ctx: Ctx, n_random: int):
         for i in range(n_random):
             wa = rng.choice(WORLDS)
             verified = rng.random() < 0.5
-            with_uuid = rng.random() < 0.6
+            with_uuid = rng.choice([False, "admin", "admin", "user"])
             chunks, meta = gen_stream(rng, probe_world, verified)
             out.append((wa, verified, with_uuid, chunks, meta))
     finally:
@@ -788,7 +793,8 @@ def run(ctx: Ctx, model: bool = True, n: Optional[int] = None):
             shown += 1
             st.sample({"case": meta, "h11_calls": len(obs["transcript"]["h11"]), "dispatches": len(obs["transcript"]["disp"]),
                        "model": {"answered": m["answered"], "eoms": m["eoms"], "out": [o[0] for o in m["out"]]},
-                       "impl": {"responses": [r.status for r in obs["responses"]], "closed": obs["closed"]}})
+                       "impl": {"responses_before_probe": [r.status for r in obs["responses"]], "probe": obs["probe"],
+                                "closed_before_lost": obs["closed"], "transport_ops": [o[0] for o in obs["final_ops"]]}})
 
 
 def search(ctx: Ctx):
